@@ -83,6 +83,13 @@ def gen_alignment(asc, seed):
     controls = []
     for i in range(rng.choice((0, 0, 2, 5))):
         controls.append({"type": "sustain_pedal", "number": 64, "time": round(0.3 + i * 0.6, 3), "value": rng.choice((0, 127, 64, 20)), "track": 0, "channel": 1})
+    if controls and rng.random() < 0.4:
+        # fast pedalling: several events of one pedal at one moment (their order is part of the stream), and a stream
+        # that is not listed in time order (e.g. the events of two recordings one after the other)
+        t0 = controls[-1]["time"]
+        for v in rng.sample((10, 30, 90, 127, 0, 64), 3):
+            controls.append({"type": "sustain_pedal", "number": 64, "time": t0, "value": v, "track": 0, "channel": 1})
+        controls.append({"type": "sustain_pedal", "number": 64, "time": 0.1, "value": 55, "track": 0, "channel": 1})
     for i in range(rng.choice((0, 0, 1, 3))):
         controls.append({"type": "soft_pedal", "number": 67, "time": round(0.5 + i * 0.9, 3), "value": rng.choice((0, 127)), "track": 0, "channel": 1})
     return notes, controls, align
@@ -178,11 +185,19 @@ def compare(res, opname, want, got):
                     res.violation("A2-performance", opname, "performed note %s %s: loaded %s s, its tick %s denotes %s s" % (pid, key, g[key], g[key + "_tick"], back), site="seconds")
                     return
     for kind in ("sustain", "soft"):
-        wv = sorted((int(round(1e6 * ppq * t / mpq)), v) for t, v in want[kind])
-        gv = sorted((int(round(1e6 * ppq * t / mpq)), v) for t, v in got[kind])
+        # events in time order; events of one tick keep the order in which they were given (a stable sort by time)
+        wv = sorted(((int(round(1e6 * ppq * t / mpq)), v) for t, v in want[kind]), key=lambda x: x[0])
+        gv = sorted(((int(round(1e6 * ppq * t / mpq)), v) for t, v in got[kind]), key=lambda x: x[0])
         if wv != gv:
             # exact duplicates of one pedal line are one event
-            if sorted(set(wv)) != sorted(set(gv)):
+            def dedup(seq):
+                out = []
+                for x in seq:
+                    if x not in out:
+                        out.append(x)
+                return out
+
+            if dedup(wv) != dedup(gv):
                 res.violation("A2-performance", opname, "%s pedal events loaded %s, written %s (ticks, value)" % (kind, gv[:6], wv[:6]), site=kind)
     if want.get("snotes") is not None and got.get("snotes") is not None:
         ws, gs = want["snotes"], got["snotes"]
